@@ -112,6 +112,36 @@ def sweep_histories(rng, syss, modes=MODES, per_hist=4, prefix=120):
     return out
 
 
+def code_sweep_histories(rng, syss, modes=("lo", "hi", "rand-hi"), per_hist=12, prefix=80):
+    """Traffic of OTHER kit: for every (code, verb) of the protocol's schema a payload generated from its regex (lowest / highest / random),
+    sent by a neighbour's devices of several types in the three address shapes, appended to a clean prefix of a recorded system."""
+    from ramses_tx.ramses import CODES_SCHEMA  # noqa: PLC0415
+
+    senders = ["32:155617", "37:154011", "29:091138", "30:082155", "10:048122", "13:237335", "04:056053", "34:092243", "07:045960", "01:054173", "02:044328", "22:012299"]
+    peers = ["18:126620", "32:155617", "01:054173", "63:262142"]
+    vs = []
+    for code, d in sorted(CODES_SCHEMA.items()):
+        for verb in (" I", "RP", " W", "RQ"):
+            rx = d.get(verb)
+            if not isinstance(rx, str):
+                continue
+            for mode in modes:
+                pl = gen(rx, rng, mode=mode)
+                if len(pl) % 2 or not 2 <= len(pl) <= 96:
+                    continue
+                src = rng.choice(senders)
+                shape = rng.choice(("self", "self", "to", "to", "via")) if verb == " I" else "to"
+                dst = rng.choice([x for x in peers if x != src])
+                addrs = f"{src} --:------ {src}" if shape == "self" else f"{src} {dst} --:------" if shape == "to" else f"--:------ --:------ {src}"
+                vs.append(f"2026-01-01T00:00:00.000000 045 {verb} --- {addrs} {code} {len(pl) // 2:03d} {pl}")
+    rng.shuffle(vs)
+    out = []
+    for i in range(0, len(vs), per_hist):
+        name, base, cfg = syss[(i // per_hist) % len(syss)]
+        out.append((retime(base[:prefix] + vs[i:i + per_hist]), "code-sweep", name, cfg))
+    return out
+
+
 KINDS = ["none", "dup", "del", "shuffle", "splice", "mutate", "mutate", "prefix"]
 
 
